@@ -404,6 +404,11 @@ func (p *path) addRule(
 		if m.body == nil {
 			return fmt.Errorf("body field error %v", rule.Body)
 		}
+		for _, fd := range m.body {
+			if fd.Message() == nil || fd.IsList() || fd.IsMap() {
+				return fmt.Errorf("body field %v is not a message", rule.Body)
+			}
+		}
 		m.hasBody = true
 	}
 
